@@ -1,7 +1,7 @@
 -- line-protocol handler of property C19 (public coin)
 -- op lines (after the property id), mirrored by harness/src/bin/c19.rs:
 --   run HASHER FIELD SEED OP...
---     HASHER  toy0 | toy1 | toy2 (toy hasher, modelled) | a real hasher name (not modelled: "-")
+--     HASHER  toy0 .. toy5 (toy hasher in six modes, modelled) | a real hasher name (not modelled: "-")
 --     FIELD   f64 | f62 | f128        SEED  comma separated canonical integers, or "-"
 --     OP      rs:HEX (reseed with H::hash(bytes)) | rd:HEX (reseed with the 32-byte digest itself) | d:DEG (draw) | di:N:DOMAIN:NONCE (draw_integers)
 --             | lz:NONCE (check_leading_zeros) | gr:GF (the prover's nonce search, at most 4096 candidates)
@@ -51,7 +51,7 @@ def toyHasher (mode eb : Nat) : DrvHasher :=
         asBytes := fun d => match d with
           | some d => d
           | none => [] }
-    hash := fun bs => some (Toy.hash mode bs) }
+    hash := fun bs => some (Toy.hash (Toy.baseMode mode) bs) }
 
 def parseNats (s : String) : Option (List Nat) :=
   if s == "-" then some [] else (s.splitOn ",").mapM (fun t => t.toNat?)
@@ -150,6 +150,9 @@ def handle : List String → String
       | "toy0" => runLine (toyHasher 0 fd.bytes) fd seed ops
       | "toy1" => runLine (toyHasher 1 fd.bytes) fd seed ops
       | "toy2" => runLine (toyHasher 2 fd.bytes) fd seed ops
+      | "toy3" => runLine (toyHasher 3 fd.bytes) fd seed ops
+      | "toy4" => runLine (toyHasher 4 fd.bytes) fd seed ops
+      | "toy5" => runLine (toyHasher 5 fd.bytes) fd seed ops
       | _ => "-"
     | none => "bad-op"
   | "oracle" :: _hasher :: field :: seed :: table :: ops =>
